@@ -57,17 +57,6 @@ Fixpoint rebuild (v : val) : val :=
   | _ => v end.
 
 (* ---------- primitive operations on values ---------- *)
-Definition is_lower (c : ascii) : bool := let n := nat_of_ascii c in (97 <=? n)%nat && (n <=? 122)%nat.
-Definition is_ident_char (c : ascii) : bool :=
-  let n := nat_of_ascii c in
-  ((97 <=? n)%nat && (n <=? 122)%nat) || ((65 <=? n)%nat && (n <=? 90)%nat) || ((48 <=? n)%nat && (n <=? 57)%nat) || (n =? 95)%nat.
-Definition safe_attr (s : string) : bool :=
-  (* names that cannot be attributes of builtin values: at most two characters, k<digit>..., or not an identifier *)
-  match s with
-  | EmptyString | String _ EmptyString | String _ (String _ EmptyString) => negb (String.eqb s "__")
-  | String "k"%char (String d _) => match digit_of d with Some _ => true | None => negb (forallb is_ident_char (list_ascii_of_string s)) end
-  | _ => negb (forallb is_ident_char (list_ascii_of_string s)) end.
-
 Definition getattr_val (cur : val) (name : val) : res val :=
   match name with
   | VStr s =>
